@@ -75,6 +75,32 @@ def hook(w, job, part):
                 if h not in o.handles: w.m.new_handle(h, 'object:' + u.decode()); o.handles[h] = True
             w.cov('C04', ('private-readback', len(prev[ti]) > 2))
         ensure_objects(ti)
+    # independent at-rest observer (file back-end): both PIN blobs of token.object must unwrap, with the model's CURRENT PINs and
+    # the pinned format, to the same master key; a previous PIN must not unwrap them; the master key survives PIN changes
+    masters = {}
+    def at_rest():
+        if job['backend'] != 'file': return
+        try: import objfile, tokenkey
+        except Exception: return
+        try: store = objfile.read_store(os.path.join(w.d, 'tokens'))
+        except Exception as e: w.F('C04', 'at-rest|token-directory-undecodable', 'the token directory cannot be decoded', err=repr(e)); return
+        by_serial = {td.info.serial: td for td in store if td.info is not None and td.info.serial}
+        for t in w.m.toks:
+            td = by_serial.get(t.serial)
+            if td is None: continue
+            k_so = tokenkey.unwrap_master_key(td.info.so_blob, t.so)
+            if k_so is None: w.F('C04', 'at-rest|so-blob-does-not-unwrap-with-current-pin', 'the stored SO PIN blob does not yield a master key under the SO PIN of the history', ti=t.idx); continue
+            if t.usr is not None:
+                k_u = tokenkey.unwrap_master_key(td.info.user_blob, t.usr)
+                if k_u is None: w.F('C04', 'at-rest|user-blob-does-not-unwrap-with-current-pin', 'the stored user PIN blob does not yield a master key under the user PIN of the history', ti=t.idx)
+                elif k_u != k_so: w.F('C04', 'at-rest|blobs-hold-different-master-keys', 'SO and user PIN blobs unwrap to different master keys (private objects become unreadable for one of them)', ti=t.idx)
+            for old in prev[t.idx]:
+                if old != t.so and td.info.so_blob and tokenkey.unwrap_master_key(td.info.so_blob, old) is not None: w.F('C04', 'at-rest|previous-pin-unwraps-so-blob', 'a PIN that is no longer current still unwraps the SO blob', ti=t.idx)
+                if old != t.usr and td.info.user_blob and tokenkey.unwrap_master_key(td.info.user_blob, old) is not None: w.F('C04', 'at-rest|previous-pin-unwraps-user-blob', 'a PIN that is no longer current still unwraps the user blob', ti=t.idx)
+            key = (t.idx, inits.get(t.idx, 0))
+            if key in masters and masters[key] != k_so: w.F('C04', 'at-rest|master-key-changed-by-pin-change', 'the master key changed although the token was not re-initialised', ti=t.idx)
+            masters.setdefault(key, k_so); w.cov('C04', ('at-rest', t.usr is not None, len(prev[t.idx]) > 2))
+    inits = {}
     names = [n for n, k in OPS.items() for _ in range(k)]
     note_pins()
     for ti in range(len(w.m.toks)): check_private(ti)
@@ -92,11 +118,14 @@ def hook(w, job, part):
         elif op == 'restart_proc': w.op_restart(True)
         elif op == 'check': check_private(rnd.randrange(len(w.m.toks)))
         elif op == 'inittoken':
-            w.op_inittoken()
+            labels0 = [tt.label for tt in w.m.toks]; w.op_inittoken()
+            for tt, l0 in zip(w.m.toks, labels0):
+                if tt.label != l0: inits[tt.idx] = inits.get(tt.idx, 0) + 1
             for u, (tj, v) in list(recorded.items()):
                 if not w.m.objs[u].alive: del recorded[u]
         else: getattr(w, 'op_' + op)()
         note_pins(); w.mon_state(dead_sample=1)
+        if op in ('setpin', 'initpin', 'inittoken', 'restart', 'restart_proc'): at_rest()
         if op in ('setpin', 'initpin', 'restart', 'restart_proc') and rnd.random() < 0.5: check_private(rnd.randrange(len(w.m.toks)))
         if any(f.prop in ('C04', 'MODEL') for f in w.findings): break
 
